@@ -6,6 +6,7 @@ import (
 	"encoding/json"
 	"fmt"
 	"os"
+	"runtime/debug"
 	"testing"
 
 	"github.com/massnetorg/mass-core/logging"
@@ -27,6 +28,11 @@ func TestMain(m *testing.M) {
 	}
 	logging.Init(logDir, "wallet.log", lvl, 1, os.Getenv("VERIF_LOGLEVEL") == "")
 	guard.Install()
+	// every wallet database open allocates a 128 MiB write buffer that is garbage a moment later;
+	// while a failure shrinks, instances are opened faster than the default pacing collects them and
+	// the address-space limit of the shard would be hit (process death = inconclusive instead of the
+	// violation). A soft limit makes the collector keep up.
+	debug.SetMemoryLimit(2 << 30)
 	if err := ref.SelfTest(); err != nil {
 		fmt.Println("HARNESS-ERROR: reference self-test failed:", err)
 		os.Exit(3)
